@@ -20,11 +20,11 @@ def half(k): return '(lit32 1056964608)' if k == 'f32' else '(lit64 460267881917
 
 def lemmas(idx):
     order = []; seen = {}; cover = []; notes = {'untranslated': []}; n = 0
-    def add(cfg, f, vs, args, ret_t, lanes, sname, hyps=(), tactic='alg_ring'):
+    def add(cfg, f, vs, args, ret_t, lanes, sname, hyps=(), tactic='alg_ring', tblx='tbl'):
         nonlocal n
         args = alg.kxargs(args); lanes = alg.kxl(lanes)
         if f['fid'] is None or f.get('status') == 'missing-callee': notes['untranslated'].append('%s %s' % (cfg, f['key'])); return
-        structs = idx.structs(cfg); run = 'rnorm (run OA tbl 400 %d%%positive [%s])' % (f['fid'], '; '.join(args))
+        structs = idx.structs(cfg); run = 'rnorm (run OA %s 400 %d%%positive [%s])' % (tblx, f['fid'], '; '.join(args))
         rt = sym(structs, ret_t, 'r', [])
         if len(tree_leaves(rt)) != len(lanes): return
         rhs = 'Ok (%s)' % tree_fill(rt, iter(lanes)); sh = ty_shape(structs, ret_t)
@@ -75,6 +75,34 @@ def lemmas(idx):
                     add(cfg, f, vs, args, st, Bv, 'move_towards: within reach -> the target itself', hyps=[alg.cmp_hyp('FLe', ln, d_[2], True)], tactic=alg.cond_tac())
                     add(cfg, f, vs, args, st, Bv, 'move_towards: closer than 1e-4 -> the target itself', hyps=[alg.cmp_hyp('FLe', ln, d_[2], False), alg.cmp_hyp('FLe', ln, eps, True)], tactic=alg.cond_tac())
                     add(cfg, f, vs, args, st, ['(%s + %s / %s * %s)%%K' % (x, dd, ln, d_[2]) for x, dd in zip(A, D)], 'move_towards: self + (rhs - self) / |rhs - self| * d', hyps=[alg.cmp_hyp('FLe', ln, d_[2], False), alg.cmp_hyp('FLe', ln, eps, False)], tactic=alg.cond_tac())
+            except SymErr: continue
+    # ---- quaternion slerp: four paths (shortest-arc flip x near-parallel fallback); acos_approx (and, in the SSE2 build, the polynomial m128_sin) are
+    # replaced by the arccos / sine primitives (Modular.v), so the lemma states the interpolation formula itself
+    def fid_of(cfg, key): return next((g['fid'] for g in idx.fns(cfg) if g['key'] == key and g['fid'] is not None), None)
+    for cfg in CFGS:
+        structs = idx.structs(cfg)
+        for f in idx.fns(cfg):
+            st = f['self']; tn = tname(st) if st is not None else None
+            if tn not in ('Quat', 'DQuat') or f['name'] != 'slerp' or f['generic'] or f['by_ref'] or not f['pub'] or len(f['params']) != 2: continue
+            k = 'f32' if tn == 'Quat' else 'f64'
+            try:
+                vs = []; a = sym(structs, st, 'a', vs); b = sym(structs, st, 'b', vs); s_ = sym(structs, k, 's', vs); A = [l[2] for l in tree_leaves(a)]; E = [l[2] for l in tree_leaves(b)]; sv = s_[2]
+                ac = fid_of(cfg, 'crate::%s::math::std_math::acos_approx' % k)
+                if ac is None: continue
+                tblx = '(override tbl %d%%positive (stub1 %s FAcos))' % (ac, 'K32' if k == 'f32' else 'K64')
+                simd_sin = fid_of(cfg, 'crate::sse2::m128_sin') if (cfg == 'sse2' and k == 'f32') else None
+                if simd_sin is not None: tblx = '(override %s %d%%positive (stub_lanes1 FSin))' % (tblx, simd_sin)
+                eps = '(lit32 872415232)' if k == 'f32' else '(lit64 4372995238176751616)'; thr = '(k1 - %s)%%K' % eps
+                d0 = alg.S([alg.P(x, y) for x, y in zip(A, E)]); args = [tree_coq(a), tree_coq(b), tree_coq(s_)]
+                for flip in (False, True):
+                    dot = ('(- %s)%%K' % d0) if flip else d0; E2 = [('(%s * (- k1))%%K' % y) for y in E] if flip else E
+                    h1 = alg.cmp_hyp('FLt', d0, 'k0', flip)
+                    n_ = ['(%s * (k1 - %s) + %s * %s)%%K' % (x, sv, y, sv) for x, y in zip(A, E2)]; nn = alg.S([alg.P(x, x) for x in n_])
+                    add(cfg, f, vs, args, st, ['(%s * (k1 / k_un FSqrt %s))%%K' % (x, nn) for x in n_], 'slerp, %s, nearly parallel: normalised lerp' % ('flipped to the shorter arc' if flip else 'no flip'), hyps=[h1, alg.cmp_hyp('FGt', dot, thr, True)], tactic=alg.cond_tac(), tblx=tblx)
+                    th = '(k_un FAcos %s)' % dot; s1 = '(k_un FSin (%s * (k1 - %s))%%K)' % (th, sv); s2 = '(k_un FSin (%s * %s)%%K)' % (th, sv); ts = '(k_un FSin %s)' % th
+                    if simd_sin is not None: s2 = '(k_un FSin (%s * %s)%%K)' % (th, sv); ts = '(k_un FSin (%s * k1)%%K)' % th; lanes = ['((%s * %s + %s * %s) / %s)%%K' % (x, s1, y, s2, ts) for x, y in zip(A, E2)]
+                    else: lanes = ['((%s * %s + %s * %s) * (k1 / %s))%%K' % (x, s1, y, s2, ts) for x, y in zip(A, E2)]
+                    add(cfg, f, vs, args, st, lanes, 'slerp, %s: (a sin((1-s)t) + b sin(st)) / sin t with t = acos(a.b)' % ('flipped to the shorter arc' if flip else 'no flip'), hyps=[h1, alg.cmp_hyp('FGt', dot, thr, False)], tactic=alg.cond_tac(), tblx=tblx)
             except SymErr: continue
     files = {}; nfiles = max(1, (len(order) + 5) // 6)
     for i, lem in enumerate(order): files.setdefault('Itp_%03d' % (i % nfiles), []).append(lem)
